@@ -90,6 +90,16 @@ def c06 (op : String) (args : List Sexp) : Verdict :=
       else if alloc > allocBound bs.length then .oracle s!"ReadFile allocated {alloc} bytes for {bs.length} bytes of input ({tagOf tag})"
       else .ok s!"mal/file/{tagOf tag}/{cls}"
     | none => .bad "parse"
+  | "mal-soak", [_, _, _, n, impl] =>
+    match impl with
+    | .list [.atom "ok", a] =>
+      match asNat a, asNat n with
+      | some a, some n =>
+        -- the destination (and its map) is reused and everything else comes from recycled banks: nothing is allocated per record
+        if a > 1048576 + n / 4 then .oracle s!"decoding one small record {n} times (banks closed at once) allocated {a} bytes: memory does not stay proportional to the input"
+        else .ok "soak/steady-state"
+      | _, _ => .bad "soak outcome"
+    | other => .oracle s!"soak: {other}"
   | "mal-schema", [_, impl] =>
     let cls := implClass impl
     if cls == "panic" then .oracle s!"schema parsing / decoder construction panicked: {impl}"
